@@ -4,12 +4,13 @@
 # is reading /repo).   seedcopy.sh <seeded|benign> <name> <property>...
 kind=$1; name=$2; shift 2
 W=${SEEDW:-/root/scratch/seedw}
+V=${VSRC:-/verif}   # VSRC: a snapshot of /verif to test (so that /verif can be edited meanwhile)
 mkdir -p $W
 rsync -a --delete --exclude target --exclude .git /repo/ $W/repo/
-rsync -a --exclude work --exclude harness/target --exclude harness/target-nohooks --exclude .git --exclude seeded --exclude benign --exclude evidence /verif/ $W/verif/
+rsync -a --exclude work --exclude harness/target --exclude harness/target-nohooks --exclude .git --exclude seeded --exclude benign --exclude evidence $V/ $W/verif/
 sed -i "s|path = \"/repo\"|path = \"$W/repo\"|" $W/verif/harness/Cargo.toml
 mkdir -p $W/verif/evidence
-( cd $W/repo && patch -p1 -s < /verif/$kind/$name/patch.diff ) || { echo "patch does not apply"; exit 2; }
+( cd $W/repo && patch -p1 -s < $V/$kind/$name/patch.diff ) || { echo "patch does not apply"; exit 2; }
 cd $W/verif
 for p in "$@"; do
   r=$(./vcheck $p 2>&1 | grep -E "VIOLATION|quick:" | tr '\n' ' ' | sed -e 's/replay=[^ ]*//')
